@@ -97,12 +97,15 @@ class Obligation:
         """SMT-LIB text of (path condition and not goal).  With qf_only the
         quantified conjuncts of the path condition are dropped: proving the goal
         from fewer hypotheses is still a proof, and such queries are much easier."""
-        s = z3.Solver()
+        # printed from a context of its own, so that the text (the numbering of shared
+        # subterms) does not depend on what this process has built before
+        ctx = z3.Context()
+        s = z3.Solver(ctx=ctx)
         for p in self.pc:
             if qf_only and _has_quantifier(p):
                 continue
-            s.add(p)
-        s.add(z3.Not(self.goal))
+            s.add(p.translate(ctx))
+        s.add(z3.Not(self.goal).translate(ctx))
         return s.to_smt2()
 
     def smt2_sliced(self):
@@ -121,13 +124,14 @@ class Obligation:
                     keep[i] = True
                     frontier |= syms
                     changed = True
-        s = z3.Solver()
+        ctx = z3.Context()
+        s = z3.Solver(ctx=ctx)
         n = 0
         for i, (p, _) in enumerate(items):
             if keep[i]:
-                s.add(p)
+                s.add(p.translate(ctx))
                 n += 1
-        s.add(z3.Not(self.goal))
+        s.add(z3.Not(self.goal).translate(ctx))
         return s.to_smt2(), n
 
     def has_quantified_pc(self):
@@ -1129,8 +1133,22 @@ class Interp:
             ctx.assume(i <= n)
             extra = {"it": i, "n": n}
             extra.update(rng)
+        # arrays the loop may write (modifies clause) hold arbitrary contents at the loop
+        # head: the body has run any number of times.  The spec's own havoc may set them;
+        # whatever it leaves as it was before the loop is replaced here.
+        mod_arrs = []
+        if spec.modifies is not None:
+            try:
+                mod_arrs = [o.root() for o in spec.modifies(ctx, View(f, extra)) if isinstance(o, SArr)]
+            except (AttributeError, KeyError):
+                mod_arrs = []      # names first bound inside the loop: nothing older than the loop to havoc
+        before = [(r, r._a) for r in mod_arrs]
         if spec.havoc is not None:
             spec.havoc(ctx, View(f, extra))
+        for r, a0 in before:
+            if r._a is a0 or z3.eq(r._a, a0):
+                r.set_a(z3.Const(ctx._name(f"{getattr(r, 'name', None) or 'arr'}@L{lidx}"), a0.sort()))
+                ctx.engine.stats.setdefault("auto_havoc", []).append((f.unit.name, lidx))
         for name, inv in spec.inv(ctx, View(f, extra)):
             ctx.assume(inv)
         # --- step or exit
